@@ -24,6 +24,7 @@ import (
 	"sync/atomic"
 	"time"
 
+	"go.uber.org/zap"
 	"go.uber.org/zap/exp/zapslog"
 	"go.uber.org/zap/zapcore"
 	"verif/harness/internal/ev"
@@ -671,7 +672,7 @@ func main() {
 		"left out (counted as excluded_slog_lv_quirk): traces in which a LogValuer resolving to a group WITHOUT attrs is the only content of an enclosing named group or of pending WithGroup groups - go1.23 slog.JSONHandler itself then writes an empty object, so the two references disagree; the same attribute is kept wherever it does not decide whether a group appears",
 		"left out (counted as excluded_slog_rollback_sep): attr lists in which a named group whose attrs all vanish is FOLLOWED by an attribute with content in the same list - go1.23 slog.JSONHandler then writes malformed JSON (separator lost after its rollback), so the reference cannot be cross-validated there; such groups are kept as the last/only attribute of a list",
 		"a group without attrs placed directly in a Record is dropped by slog.Record.AddAttrs itself and never reaches the handler",
-		"levels: every integer in [-12,16], MinInt and MaxInt; cores with every minimum level Debug..Fatal and a core that enables nothing",
+		"levels: every integer in [-12,16], MinInt and MaxInt; cores with every minimum level Debug..Fatal and a core that enables nothing; tees of two members over {>=Debug..>=Error, nothing, ==Debug..==Error} in every ordered pair (a record must reach exactly the members that enable its mapped level); cores whose Check declines what Enabled lets through (two dropping samplers, a declining wrapper): what Check declines is not written",
 	}
 	run.Finish(map[string]any{
 		"states":                        len(stateSet),
@@ -812,8 +813,119 @@ func (r *rig) levels() int64 {
 			}
 		}
 	}
+	return n + r.compositeLevels(ls, progs)
+}
+
+// compositeLevels: cores whose Check is more selective than their Enabled - tees of members with
+// different minimum levels or level windows, a sampler that drops, a wrapper whose Check declines.
+// A record must reach exactly the members that enable its mapped level, and what a dropping core
+// declines must not be written.
+func (r *rig) compositeLevels(ls []slog.Level, progs [][]op) int64 {
+	type member struct {
+		name string
+		en   zapcore.LevelEnabler
+	}
+	var members []member
+	for _, min := range []zapcore.Level{zapcore.DebugLevel, zapcore.InfoLevel, zapcore.WarnLevel, zapcore.ErrorLevel, zapcore.FatalLevel + 1} {
+		members = append(members, member{fmt.Sprintf(">=%v", min), min})
+	}
+	for _, only := range []zapcore.Level{zapcore.DebugLevel, zapcore.InfoLevel, zapcore.WarnLevel, zapcore.ErrorLevel} {
+		only := only
+		members = append(members, member{fmt.Sprintf("==%v", only), zap.LevelEnablerFunc(func(l zapcore.Level) bool { return l == only })})
+	}
+	var n int64
+	for ai, a := range members {
+		for bi, b := range members {
+			if ai == bi {
+				continue
+			}
+			bufs := [2]*bytes.Buffer{{}, {}}
+			core := zapcore.NewTee(
+				zapcore.NewCore(zapcore.NewJSONEncoder(encoderConfig()), zapcore.AddSync(bufs[0]), a.en),
+				zapcore.NewCore(zapcore.NewJSONEncoder(encoderConfig()), zapcore.AddSync(bufs[1]), b.en))
+			root := slog.Handler(zapslog.NewHandler(core))
+			for _, p := range progs {
+				h := root
+				for _, o := range p {
+					h = o.apply(h)
+				}
+				for _, l := range ls {
+					n++
+					ci := caseInfo{Part: "levels", Prog: info("", p, nil).Prog, Rec: []string{alph.scalar2.label}, Note: fmt.Sprintf("slog level %d, tee of a core enabling %s and a core enabling %s", int(l), a.name, b.name)}
+					r.guard(ci, func() {
+						zl := mapped(l)
+						wa, wb := a.en.Enabled(zl), b.en.Enabled(zl)
+						if got := h.Enabled(ctx, l); got != (wa || wb) {
+							r.report("level:Enabled-disagrees-with-core:composite", fmt.Sprintf("%s.Enabled(%d) = %v on a tee of cores enabling %s / %s; the level maps to %v", progString(p), int(l), got, a.name, b.name, zl), ci)
+						}
+						bufs[0].Reset()
+						bufs[1].Reset()
+						if err := h.Handle(ctx, mkRecord(l, []*spec{alph.scalar2})); err != nil {
+							r.report("level:Handle-error", fmt.Sprintf("%s.Handle at level %d returned %v", progString(p), int(l), err), ci)
+							return
+						}
+						r.transitions++
+						for i, want := range []bool{wa, wb} {
+							got := bufs[i].Len() > 0
+							switch {
+							case got && !want:
+								r.report("level:handled-by-a-member-that-disables-the-level", fmt.Sprintf("%s.Handle at level %d (zap %v) on a tee of cores enabling %s / %s: member %d wrote %q", progString(p), int(l), zl, a.name, b.name, i, bufs[i].String()), ci)
+							case !got && want:
+								r.report("level:not-handled-by-a-member-that-enables-the-level", fmt.Sprintf("%s.Handle at level %d (zap %v) on a tee of cores enabling %s / %s: member %d wrote nothing", progString(p), int(l), zl, a.name, b.name, i), ci)
+							}
+						}
+					})
+				}
+			}
+		}
+	}
+	// cores that decline in Check what Enabled lets through
+	type dropper struct {
+		name string
+		mk   func(zapcore.Core) zapcore.Core
+		keep func(i int) bool // is the i-th record (0-based) of one level+message written?
+	}
+	droppers := []dropper{
+		{"sampler(first 1, thereafter 0, tick 1h)", func(c zapcore.Core) zapcore.Core { return zapcore.NewSamplerWithOptions(c, time.Hour, 1, 0) }, func(i int) bool { return i == 0 }},
+		{"sampler(first 0, thereafter 2, tick 1h)", func(c zapcore.Core) zapcore.Core { return zapcore.NewSamplerWithOptions(c, time.Hour, 0, 2) }, func(i int) bool { return i%2 == 1 }},
+		{"wrapper whose Check declines every entry", func(c zapcore.Core) zapcore.Core { return decliner{c} }, func(int) bool { return false }},
+	}
+	for _, d := range droppers {
+		for _, p := range progs {
+			buf := &bytes.Buffer{}
+			h := slog.Handler(zapslog.NewHandler(d.mk(zapcore.NewCore(zapcore.NewJSONEncoder(encoderConfig()), zapcore.AddSync(buf), zapcore.DebugLevel))))
+			for _, o := range p {
+				h = o.apply(h)
+			}
+			for _, l := range []slog.Level{slog.LevelDebug, slog.LevelInfo, slog.LevelWarn, slog.LevelError} {
+				for i := 0; i < 4; i++ {
+					n++
+					ci := caseInfo{Part: "levels", Prog: info("", p, nil).Prog, Rec: []string{alph.scalar2.label}, Note: fmt.Sprintf("slog level %d, record %d of this level, core: %s", int(l), i, d.name)}
+					r.guard(ci, func() {
+						buf.Reset()
+						rec := mkRecord(l, []*spec{alph.scalar2})
+						rec.Time = time.Unix(1700000000, 0)
+						if err := h.Handle(ctx, rec); err != nil {
+							r.report("level:Handle-error", fmt.Sprintf("%s.Handle returned %v", progString(p), err), ci)
+							return
+						}
+						r.transitions++
+						if got, want := buf.Len() > 0, d.keep(i); got != want {
+							r.report("level:core-Check-decision-not-honoured", fmt.Sprintf("%s.Handle, record %d at level %d on %s: written=%v, the core's Check decides %v", progString(p), i, int(l), d.name, got, want), ci)
+						}
+					})
+				}
+			}
+		}
+	}
 	return n
 }
+
+// decliner enables everything and declines every entry in Check (as a filtering core does).
+type decliner struct{ zapcore.Core }
+
+func (d decliner) Check(zapcore.Entry, *zapcore.CheckedEntry) *zapcore.CheckedEntry { return nil }
+func (d decliner) With(f []zapcore.Field) zapcore.Core                              { return decliner{d.Core.With(f)} }
 
 // ---------------------------------------------------------------------------
 // replay of one recorded case
